@@ -24,7 +24,7 @@ def main():
     except ValueError:
         seed = 1
     os.chdir(vlib.VERIF)
-    ctx = vlib.Ctx(a.prop, tier, seed)
+    ctx = vlib.Ctx(a.prop, tier, seed, keep_replays=bool(a.replay))
     mod = importlib.import_module("props." + a.prop)
     try:
         if a.replay:
